@@ -181,8 +181,7 @@ def evaluate(mut, slot_dirs, args, pf):
         shutil.copytree(os.path.join(args.base, "tests"), os.path.join(scratch, "tests"))
         open(os.path.join(scratch, "socialchoicekit", mut["file"]), "w").write(mut["src"])
         env = dict(os.environ, PYTHONPATH=scratch, PYTHONDONTWRITEBYTECODE="1")
-        rc, txt = sh([PY, "-m", "pytest", "-q", "-x", "-p", "no:cacheprovider", "--timeout=60", "tests/unit",
-                      "--deselect", "tests/unit/test_preflib_utils.py"], cwd=scratch, env=env, timeout=400)
+        rc, txt = sh([PY, "-m", "pytest", "-q", "-p", "no:cacheprovider", "--timeout=60", "tests/unit"], cwd=scratch, env=env, timeout=600)
         m = re.search(r"(\d+) passed", txt)
         failed = re.search(r"(\d+) failed", txt)
         res["suite_passed"] = int(m.group(1)) if m else 0
@@ -276,7 +275,7 @@ def main():
         os.makedirs(d, exist_ok=True)
         slots.put(d)
     # the preflib unit tests need the network and error out at baseline: 82 tests pass without that file? count it once
-    rc, txt = sh([PY, "-m", "pytest", "-q", "-p", "no:cacheprovider", "tests/unit", "--deselect", "tests/unit/test_preflib_utils.py"],
+    rc, txt = sh([PY, "-m", "pytest", "-q", "-p", "no:cacheprovider", "tests/unit"],
                  cwd=args.base, env=dict(os.environ, PYTHONPATH=args.base), timeout=600)
     import re
     m = re.search(r"(\d+) passed", txt)
